@@ -71,6 +71,9 @@ func c02case(c GCase, a *run.Acc) {
 func c02plan(tier string, seed int64) []run.Job {
 	var jobs []run.Job
 	jobs = append(jobs, run.Job{Family: "corpus"})
+	for i := 0; i < 8; i++ {
+		jobs = append(jobs, run.Job{Family: "long", Seed: seed*100000 + 90000 + int64(i), N: 40})
+	}
 	nr, per := 16, 400
 	maxNodes := 5
 	if tier == "thorough" {
